@@ -383,6 +383,50 @@ def run(F, rep, tier):
     else:
         rep.error('R10.4', 'core::Stream::pythonic_slice missing')
 
+    # ---------------- R10.6
+    rep.rule('R10.6', 'in the normalisers every isize -> usize cast is applied to a value known to be non-negative: a comparison of that same '
+             'value with 0 dominates the cast on its non-negative side, or it is a rem_euclid / max(.,0) result, or it is the reviewed '
+             'wrap-around idiom of pythonic_index_isize (negative sums become huge and fail the following bound test)')
+    wrap_idiom = {'core::pythonic_index_isize': 'n + len cast and then compared against len: a negative sum wraps to a huge usize and is rejected',
+                  'core::Stream::pythonic_index_isize': 'same idiom: i + len cast, then compared against len',
+                  '<streams::Repeat as core::Stream>::pythonic_slice': '(hi - lo).max(0)',
+                  '<streams::Cycle as core::Stream>::pythonic_index_isize': '(cursor + i.rem_euclid(n)) % n with both summands in 0..n'}
+    n6 = 0
+    for fn in sorted(cand) + ['cyclic_index']:
+        if not F.has_fn(fn):
+            continue
+        b = F.body(fn)
+        for i in sorted(b.reach):
+            for s_ in b.stmts(i):
+                if not (s_[0] == 'a' and s_[2][0] == 'cast' and s_[2][1] == 'IntToInt' and s_[2][3] == 'usize'):
+                    continue
+                o = s_[2][2]
+                if o[0] not in ('c', 'm') or b.locals[o[1][0]] != 'isize':
+                    continue
+                n6 += 1
+                og = origins(b, o)
+                if any(x[0] == 'call' and x[1].rsplit('::', 1)[-1] in ('rem_euclid', 'max') for x in og):
+                    rep.ok('R10.6', '%s: cast of a reduced value' % fn, 'rem_euclid / max result')
+                    continue
+                vals = {str(x[:3]) for x in og}
+                guarded = False
+                for d in b.dominators()[i]:
+                    for t_ in b.stmts(d):
+                        if t_[0] == 'a' and t_[2][0] == 'bin' and t_[2][1] in ('Lt', 'Ge') and t_[2][3][0] == 'k' and t_[2][3][2].startswith('0_'):
+                            if {str(x[:3]) for x in origins(b, t_[2][2])} == vals:
+                                for (sw, tt, ff) in bool_switches(b, t_[1][0]):
+                                    nonneg = ff if t_[2][1] == 'Lt' else tt
+                                    neg = tt if t_[2][1] == 'Lt' else ff
+                                    if i in b.reachable_from(nonneg, avoid={sw}) and i not in b.reachable_from(neg, avoid={sw}):
+                                        guarded = True
+                if guarded:
+                    rep.ok('R10.6', '%s: isize -> usize' % fn, 'only on the non-negative side of a comparison of the same value with 0')
+                elif fn in wrap_idiom:
+                    rep.ok('R10.6', '%s: isize -> usize' % fn, 'reviewed: ' + wrap_idiom[fn])
+                else:
+                    rep.viol('R10.6', '%s|unguarded-isize-to-usize' % fn, 'a possibly negative isize is cast to usize in %s without a sign test of that value: a bound below -len wraps to a huge index instead of clamping to 0' % fn, b.loc(i))
+    rep.floor('R10.6', 'isize -> usize casts in the normalisers', n6, 6)
+
     # ---------------- R10.5
     rep.rule('R10.5', 'pythonic_index and obj_to_isize_slice_index raise on a non-integer (to_isize() == None) and on a non-numeric index')
     for fn in ('core::pythonic_index', 'core::obj_to_isize_slice_index', 'cyclic_index'):
